@@ -7,6 +7,8 @@ Driver for the C09 correspondence.  One request per line (strings as '.'-joined 
   `strop <lang> <ty> <tok>`                      → `ok <r> <0|1: a failure handler fired>` | `err <kind>`
   `stropx <lang> <prefix> <suffix> <encprefix> <kw|kw|…> <ty> <tok|tok|…>`   the same for every token under an
                                                   overridden configuration; answers joined by `;`
+  `stropc <lang> <spec> <ty> <tok|tok|…>`        general overrides: spec = `;`-joined `pre= suf= enc= kw= ws= col= pat= rul=`
+                                                  (pat/rul: `<type>:<wire>/<wire>&<type>:…`); `stropcold` = code as found
   `stropold …`, `stropxold …`                    the same through `stropTraceBeforeFix` (the code as found)
   `handler <s>`                                  → `some <r>` | `none`          (C / C++ failure handler)
   `isspace <lang> <cp>`                          → `1` | `0`
@@ -55,6 +57,35 @@ partial def parseRe : List String → Option (Re × List String)
     pure (.chr ⟨neg = "1", rs⟩, r1)
   | _ => none
 
+/-- `<encty>:<wire>/<wire>&<encty>:…`  (`!` = empty map) -/
+def parseMap (s : String) : Option (List (Str × List Re)) :=
+  if s = "!" then some [] else
+  (splitOnChar s '&').mapM fun ent =>
+    match splitOnChar ent ':' with
+    | [ty, res] => do
+      let ty ← decodeS ty
+      let one : String → Option Re := fun w =>
+        match parseRe (splitOnChar w ',') with
+        | some (re, []) => some re
+        | _ => none
+      let rs ← (if res = "" then some [] else (splitOnChar res '/').mapM one)
+      pure (ty, rs)
+    | _ => none
+
+/-- configuration overrides `key=value;key=value…` applied to a base configuration -/
+def applySpec (cfg : Cfg) (spec : String) : Option Cfg :=
+  (splitOnChar spec ';').foldlM (init := cfg) fun cfg kv =>
+    match splitOnChar kv '=' with
+    | ["pre", v] => (decodeS v).map fun x => { cfg with stropPrefix := x }
+    | ["suf", v] => (decodeS v).map fun x => { cfg with stropSuffix := x }
+    | ["enc", v] => (decodeS v).map fun x => { cfg with encPrefix := x }
+    | ["kw", v] => (if v = "!" then some [] else (splitOnChar v '|').mapM decodeS).map fun x => { cfg with reserved := x }
+    | ["ws", v] => if v = "none" then some { cfg with wsChar := none } else (decodeS v).map fun x => { cfg with wsChar := some x }
+    | ["col", v] => some { cfg with collapse := v = "1" }
+    | ["pat", v] => (parseMap v).map fun x => { cfg with patterns := x }
+    | ["rul", v] => (parseMap v).map fun x => { cfg with rules := x }
+    | _ => none
+
 def rxOp (re : Re) (op : String) (s : Str) : String :=
   if op = "match" then
     match matchEnd re s with
@@ -96,6 +127,13 @@ def answer (line : String) : String :=
           showResult ((if old then stropTraceBeforeFix else stropTrace) cfg' tok ty))
       | none => "bad-op"
     | _, _, _, _, _, _ => "bad-op"
+  | [op, lang, spec, ty, toks] =>
+    if op ≠ "stropc" ∧ op ≠ "stropcold" then "bad-op" else
+    match (cfgOf lang).bind (applySpec · spec), decodeS ty, (splitOnChar toks '|').mapM decodeS with
+    | some cfg, some ty, some toks =>
+      ";".intercalate (toks.map fun tok =>
+        showResult ((if op = "stropcold" then stropTraceBeforeFix else stropTrace) cfg tok ty))
+    | _, _, _ => "bad-op"
   | ["handler", s] =>
     match decodeS s with
     | some s => (match cHandler s with | some r => "some " ++ encodeS r | none => "none")
